@@ -19,6 +19,20 @@
 (* choice: all vectors over Outcomes up to FullUpTo services, and for more    *)
 (* services vectors over PlainKinds plus one other kind at a time.            *)
 (*                                                                            *)
+(* A service also has a DYNAMIC TYPE (stype[i]), which decides how its         *)
+(* interface value compares and hashes: "ptr" (a pointer: distinct identity), *)
+(* "val" (a comparable struct BY VALUE - all "val" services here have equal   *)
+(* fields, so they are equal as interface values; two registrations of them   *)
+(* are two registrations, of "the same" service or not), "func" (a func       *)
+(* adapter: not comparable, not hashable), "ncval" (a struct by value with a  *)
+(* func field: not comparable), "zst" (pointers to a zero-size type, which    *)
+(* may all be equal).  Like the outcome kinds this is data the code might be  *)
+(* tempted to use (==, map keys); C18 does not depend on it: every REGISTERED *)
+(* service - every registration - is shut down exactly once, in reverse       *)
+(* order.  DedupByValue = TRUE models a handler that skips a registration     *)
+(* whose value it has "already seen" in a map (and dies on an unhashable one, *)
+(* its blanket recover then reporting success): for demonstration.            *)
+(*                                                                            *)
 (* Registration is part of the behaviour: before Handle the caller executes a *)
 (* `plan` of Add calls.  Each Add passes a group of services as a spread      *)
 (* slice: a fresh one, or the caller's reusable buffer `mem` (filled from     *)
@@ -48,6 +62,9 @@ CONSTANTS MaxServices,   \* services 0..MaxServices are registered
           RegBufs,       \* what is passed: subset of {"fresh", "reuse"} (reuse = the caller's buffer from index 0)
           RegAfters,     \* what the caller does to the passed slice after Add returned: {"keep", "zero", "decoy"}
           RegEmpties,    \* subset of BOOLEAN: TRUE = Add() / Add(nil...) before every group and at the end
+          STypes,        \* dynamic types of services, "ptr" among them
+          TypesFullUpTo, \* up to this many services every type vector; beyond: "ptr" plus one other type at a time
+          DedupByValue,  \* FALSE = every registration counts; TRUE = de-duplication through a map (demonstration)
           AddAliases     \* FALSE = Add appends (copies); TRUE = the first Add keeps the caller's slice (demonstration)
 
 VARIABLES n,         \* number of registered services
@@ -61,6 +78,7 @@ VARIABLES n,         \* number of registered services
           regOwn,    \* Go: h.services when it has storage of its own
           regLen,    \* Go: len(h.services)
           regAlias,  \* h.services is a view of the caller's buffer mem[1..regLen] (only with AddAliases)
+          stype,     \* stype[i]: dynamic type of service i
           mem,       \* the caller's reusable buffer: service numbers, 0 = nil, -1 = a decoy service
           idx,       \* Go: i+1 of the loop in shutdown(); 0 = loop finished
           failed,    \* Go: status == ExitCodeFailure
@@ -68,7 +86,7 @@ VARIABLES n,         \* number of registered services
           order,     \* sequence of service indices in the order they were called
           status     \* -1 until Handle returns, then 0 (success) or 1 (failure)
 
-regvars == <<plan, plan0, regOwn, regLen, regAlias, mem>>
+regvars == <<plan, plan0, regOwn, regLen, regAlias, mem, stype>>
 svars == <<n, outcome, script, sent, chan, phase, idx, failed, calls, order, status, regvars>>
 
 BufCap == MaxServices + 2
@@ -99,8 +117,8 @@ SeqsUpTo(S, k) == UNION {[1..m -> S] : m \in 0..k}
 Scripts == {pre \o <<s>> \o post : pre \in SeqsUpTo(OtherSigs, MaxPre), s \in ShutSigs,
                                    post \in SeqsUpTo(TrailSigs, MaxTrail)}
 
-SNew(k, oc, p) ==
-    /\ n = k /\ outcome = oc
+SNew(k, oc, p, ty) ==
+    /\ n = k /\ outcome = oc /\ stype = ty
     /\ sent = 0 /\ chan = <<>> /\ phase = "registering" /\ idx = 0 /\ failed = FALSE
     /\ calls = [i \in 1..k |-> 0] /\ order = <<>> /\ status = -1
     /\ plan = p /\ plan0 = p /\ regOwn = <<>> /\ regLen = 0 /\ regAlias = FALSE
@@ -109,7 +127,11 @@ SNew(k, oc, p) ==
 KindVectors(k) == {oc \in [1..k -> Outcomes] :
                       k <= FullUpTo \/ Cardinality({oc[i] : i \in 1..k} \ PlainKinds) <= 1}
 
-SInit == /\ \E k \in 0..MaxServices : \E oc \in KindVectors(k) : \E p \in Plans(k) : SNew(k, oc, p)
+TypeVectors(k) == {ty \in [1..k -> STypes] :
+                      k <= TypesFullUpTo \/ Cardinality({ty[i] : i \in 1..k} \ {"ptr"}) <= 1}
+
+SInit == /\ \E k \in 0..MaxServices : \E oc \in KindVectors(k) : \E p \in Plans(k) : \E ty \in TypeVectors(k) :
+              SNew(k, oc, p, ty)
          /\ script \in Scripts
 
 (* One Add call of the plan, together with what the caller does to its slice  *)
@@ -145,13 +167,13 @@ AddStep ==
                  /\ mem' = After([i \in 1..BufCap |-> IF i > regLen /\ i <= regLen + m THEN g[i - regLen] ELSE mem1[i]])
             ELSE /\ regOwn' = cur \o g /\ regLen' = Len(cur) + m /\ regAlias' = FALSE
                  /\ mem' = After(mem1)
-    /\ UNCHANGED <<n, outcome, script, sent, chan, phase, idx, failed, calls, order, status, plan0>>
+    /\ UNCHANGED <<n, outcome, script, sent, chan, phase, idx, failed, calls, order, status, plan0, stype>>
 
 (* Add(g) as the requirement sees it (used by trace validation). *)
 AddGroup(g) ==
     /\ phase = "registering"
     /\ regOwn' = RegValue \o g /\ regLen' = regLen + Len(g) /\ regAlias' = FALSE
-    /\ UNCHANGED <<n, outcome, script, sent, chan, phase, idx, failed, calls, order, status, plan, plan0, mem>>
+    /\ UNCHANGED <<n, outcome, script, sent, chan, phase, idx, failed, calls, order, status, plan, plan0, mem, stype>>
 
 (* Handle is called. *)
 StartHandle ==
@@ -184,9 +206,18 @@ Receive ==
 (* or a decoy - can only be met with AddAliases.)                             *)
 ShutdownOne(i) ==
     /\ phase = "shutting" /\ idx >= 1 /\ i = RegValue[idx]
-    /\ order' = Append(order, i)
+    /\ order' = (IF DedupByValue /\ i \in 1..n /\ (stype[i] \in {"func", "ncval"}
+                                 \/ (stype[i] \in {"val", "zst"} /\ \E j \in 1..n : j # i /\ stype[j] = stype[i] /\ calls[j] > 0))
+                 THEN order ELSE Append(order, i))
     /\ IF i \notin 1..n
          THEN /\ failed' = TRUE /\ idx' = idx - 1 /\ UNCHANGED <<calls, phase, status>>
+         ELSE IF DedupByValue /\ stype[i] \in {"func", "ncval"}
+         THEN \* map access with an unhashable key panics outside the per-service recover
+              /\ phase' = "returned" /\ status' = 0 /\ idx' = 0 /\ UNCHANGED <<calls, failed>>
+         ELSE IF DedupByValue /\ stype[i] \in {"val", "zst"}
+                 /\ \E j \in 1..n : j # i /\ stype[j] = stype[i] /\ calls[j] > 0
+         THEN \* "already seen": skipped
+              /\ idx' = idx - 1 /\ UNCHANGED <<calls, failed, phase, status>>
          ELSE /\ calls' = [calls EXCEPT ![i] = @ + 1]
               /\ IF PanicAborts /\ outcome[i] \in PanicKinds
                    THEN \* before b5e2710: the deferred recover in Handle swallows the panic
